@@ -1,237 +1,14 @@
-(* How the consumers of "the group order is prime" use Base/Primes.v.
+(* How the consumers of "the group order is prime" use the Base/Prime*.v files; this file only
+   re-exports the per-curve files (import the one you need):
+     Base/PrimesUseBn256.v     C13 / C14 / C15: curve_order_prime, curve_order_prime_nat, Fr,
+                               C13_zr_lagrange_unconditional, C13_zr_dkg_unconditional, C14_*_bn256
+     Base/PrimesUseEd25519.v   C16: ell25519_prime, cyclic_world, W25519, C16_*_at_ell25519
+     Base/PrimeBridge.v        Zprime_prime_nat (stdlib prime -> mathcomp prime) *)
+From V.Base Require Export PrimeBridge PrimesUseBn256 PrimesUseEd25519.
+From Coq Require Import ZArith.
+From mathcomp Require Import ssreflect ssrbool prime.
 
-   C13 (Props.C13_zr_lagrange, C13_zr_dkg), C14 (C14_complete, C14_generic) and C16 (field [ell_prime]
-   of Vrf.World) all state primality as [Znumtheory.prime] over Z; C15 works over an arbitrary
-   [fieldType] and needs mathcomp's [prime] over nat to instantiate it with 'F_r.  This file
-     (a) gives the primality lemmas in exactly those forms:
-           curve_order_prime      : Znumtheory.prime C13.Model.curve_order
-           curve_order_prime_nat  : prime (Z.to_nat curve_order)            (mathcomp, never evaluated)
-           ell25519_prime         : Znumtheory.prime (Z.of_N C16.Model.ell25519)
-     (b) instantiates headline theorems of C13, C14 and C16 with them, so that the hypothesis is gone.
-   Nothing in C13–C16 is modified; a consumer writes e.g. [C13_zr_dkg curve_order_prime].
-   First part: standard-library style (C14, C16); second part: mathcomp style (C13, C15). *)
-From Coq Require Import ZArith Znumtheory Bool Lia Eqdep_dec.
-From V.Base Require Import Pocklington Primes.
-From V.C14 Require Model Props.
-From V.C16 Require Model Vrf Props.
-Local Open Scope Z_scope.
-
-(* ========================================================================================== *)
-(* C14: BLS verification over the node's BN group order                                        *)
-
-Corollary C14_complete_bn256 : forall sk h, sk mod bn256_order <> 0 -> h mod bn256_order <> 0 ->
-  C14.Model.verify_exp bn256_order (C14.Model.pub_exp bn256_order sk) h
-    (C14.Model.sign_exp bn256_order sk h) = true.
-Proof. exact (C14.Props.C14_complete bn256_order eq_refl bn256_order_prime). Qed.
-Print Assumptions C14_complete_bn256.
-
-Corollary C14_generic_bn256 : forall sk alpha beta h1 h2,
-  (alpha mod bn256_order <> sk mod bn256_order \/ beta mod bn256_order <> 0) ->
-  C14.Model.verify_exp bn256_order (C14.Model.pub_exp bn256_order sk) h1 (alpha * h1 + beta) = true ->
-  C14.Model.verify_exp bn256_order (C14.Model.pub_exp bn256_order sk) h2 (alpha * h2 + beta) = true ->
-  h1 mod bn256_order = h2 mod bn256_order.
-Proof. exact (C14.Props.C14_generic bn256_order eq_refl bn256_order_prime). Qed.
-Print Assumptions C14_generic_bn256.
-
-(* ========================================================================================== *)
-(* C16: the ed25519 group order                                                                *)
-
-Lemma ell25519_Z : Z.of_N C16.Model.ell25519 = ed25519_ell.
-Proof. vm_compute. reflexivity. Qed.
-
-(* the value for the field [ell_prime] of a Vrf.World whose [ell] is the model's constant *)
-Lemma ell25519_prime : prime (Z.of_N C16.Model.ell25519).
-Proof. rewrite ell25519_Z. exact ed25519_ell_prime. Qed.
-Print Assumptions ell25519_prime.
-
-(* A World (Vrf.v) for ANY prime l: the cyclic group Z/(8l) — the group structure of the ed25519 curve
-   group for l = ell25519 — with base point 8 and simple hash functions.  It generalises VrfInst.toy
-   (l = 5) and shows that all World hypotheses hold together at the real order, with [ell_prime]
-   discharged by the theorem above instead of being assumed. *)
-Section CyclicWorld.
-Variable l : Z.
-Hypothesis l_prime : prime l.
-
-Let n : Z := 8 * l.
-Let l_ge2 : 2 <= l. Proof. exact (prime_ge_2 l l_prime). Qed.
-Let n_pos : 0 < n. Proof. unfold n. lia. Qed.
-
-Definition cG : Type := { z : Z | (z mod n =? z) = true }.
-Lemma cmk_ok z : ((z mod n) mod n =? z mod n) = true.
-Proof. apply Z.eqb_eq. apply Z.mod_mod. lia. Qed.
-Definition cmk (z : Z) : cG := exist _ (z mod n) (cmk_ok z).
-Definition cval (a : cG) : Z := proj1_sig a.
-
-Lemma cG_eq (a b : cG) : cval a = cval b -> a = b.
-Proof.
-  destruct a as [x Hx], b as [y Hy]. cbn [cval proj1_sig]. intro E. subst y. f_equal.
-  apply UIP_dec. apply bool_dec.
-Qed.
-Lemma cval_mk z : cval (cmk z) = z mod n.
-Proof. reflexivity. Qed.
-Lemma cval_canon a : cval a mod n = cval a.
-Proof. destruct a as [x Hx]. cbn [cval proj1_sig]. apply Z.eqb_eq. exact Hx. Qed.
-
-Definition cadd (a b : cG) : cG := cmk (cval a + cval b).
-Definition cneg (a : cG) : cG := cmk (- cval a).
-Definition csmul (k : Z) (a : cG) : cG := cmk (k * cval a).
-Definition ceqb (a b : cG) : bool := cval a =? cval b.
-
-Lemma ceqb_spec a b : ceqb a b = true <-> a = b.
-Proof. unfold ceqb. rewrite Z.eqb_eq. split; [apply cG_eq | intros ->; reflexivity]. Qed.
-
-Ltac cg := intros; apply cG_eq; unfold cadd, cneg, csmul; rewrite ?cval_mk.
-
-Lemma cadd_assoc a b c : cadd a (cadd b c) = cadd (cadd a b) c.
-Proof. cg. rewrite Z.add_mod_idemp_r, Z.add_mod_idemp_l by lia. f_equal. lia. Qed.
-Lemma cadd_comm a b : cadd a b = cadd b a.
-Proof. cg. f_equal. lia. Qed.
-Lemma cadd_0_l a : cadd (cmk 0) a = a.
-Proof. cg. rewrite Z.mod_0_l, Z.add_0_l by lia. apply cval_canon. Qed.
-Lemma cadd_neg_r a : cadd a (cneg a) = cmk 0.
-Proof. cg. rewrite Z.add_mod_idemp_r by lia. f_equal. lia. Qed.
-Lemma csmul_add_l j k P : csmul (j + k) P = cadd (csmul j P) (csmul k P).
-Proof. cg. rewrite <- Z.add_mod by lia. f_equal. lia. Qed.
-Lemma csmul_add_r k P Q : csmul k (cadd P Q) = cadd (csmul k P) (csmul k Q).
-Proof. cg. rewrite <- Z.add_mod by lia. rewrite Z.mul_mod_idemp_r by lia. f_equal. lia. Qed.
-Lemma csmul_mul j k P : csmul (j * k) P = csmul j (csmul k P).
-Proof. cg. rewrite Z.mul_mod_idemp_r by lia. f_equal. lia. Qed.
-Lemma csmul_1 P : csmul 1 P = P.
-Proof. cg. rewrite Z.mul_1_l. apply cval_canon. Qed.
-
-Lemma corder P : csmul (8 * l) P = cmk 0.
-Proof. cg. fold n. rewrite Z.mul_comm, Z.mod_mul by lia. symmetry. apply Z.mod_0_l. lia. Qed.
-
-Lemma eight_mod : 8 mod n = 8.
-Proof. apply Z.mod_small. unfold n. lia. Qed.
-
-Lemma cB_order k : csmul k (cmk 8) = cmk 0 <-> (l | k).
-Proof.
-  split.
-  - intro H. apply (f_equal cval) in H. unfold csmul in H. rewrite !cval_mk in H.
-    rewrite eight_mod, Z.mod_0_l in H by lia. apply Z.mod_divide in H; [|lia].
-    destruct H as [q Hq]. exists q. unfold n in Hq. lia.
-  - intros [q ->]. cg. rewrite eight_mod, Z.mod_0_l by lia.
-    replace (q * l * 8) with (q * n) by (unfold n; lia). apply Z.mod_mul. lia.
-Qed.
-
-Lemma ccyclic P : csmul l P = cmk 0 -> exists k, P = csmul k (cmk 8).
-Proof.
-  intro H. apply (f_equal cval) in H. unfold csmul in H. rewrite !cval_mk in H.
-  rewrite Z.mod_0_l in H by lia. apply Z.mod_divide in H; [|lia].
-  destruct H as [q Hq]. exists q. cg. rewrite eight_mod.
-  replace (q * 8) with (cval P) by (unfold n in Hq; nia). symmetry. apply cval_canon.
-Qed.
-
-(* hash functions: messages are integers; the challenge hash ranges over [0, l) *)
-Definition cE (Y : cG) (m : Z) : cG := cmk (2 * cval Y + m + 1).
-Definition cHc (a b c d : cG) : Z := (cval a + 3 * cval b + 5 * cval c + 7 * cval d + 1) mod l.
-Definition cnonce (t : Z) (H : cG) : Z := t + cval H.
-
-Lemma cHc_range a b c d : 0 <= cHc a b c d < l.
-Proof. unfold cHc. apply Z.mod_pos_bound. lia. Qed.
-Lemma cbound_l : 0 < l <= l.
-Proof. lia. Qed.
-
-Definition cyclic_world : Vrf.World := {|
-  Vrf.G := cG; Vrf.zero := cmk 0; Vrf.add := cadd; Vrf.neg := cneg; Vrf.smul := csmul;
-  Vrf.geqb := ceqb; Vrf.geqb_spec := ceqb_spec;
-  Vrf.add_assoc := cadd_assoc; Vrf.add_comm := cadd_comm; Vrf.add_0_l := cadd_0_l;
-  Vrf.add_neg_r := cadd_neg_r;
-  Vrf.smul_add_l := csmul_add_l; Vrf.smul_add_r := csmul_add_r; Vrf.smul_mul := csmul_mul;
-  Vrf.smul_1 := csmul_1;
-  Vrf.ell := l; Vrf.ell_prime := l_prime; Vrf.order8l := corder;
-  Vrf.B := cmk 8; Vrf.B_order := cB_order; Vrf.cyclic := ccyclic;
-  Vrf.Msg := Z; Vrf.E := cE; Vrf.Hc := cHc; Vrf.cbound := l; Vrf.cbound_ok := cbound_l;
-  Vrf.Hc_range := cHc_range; Vrf.nonce := cnonce
-|}.
-
-End CyclicWorld.
-
-(* the World at the real ed25519 order: ell is the model's constant, its primality is proved *)
-Definition W25519 : Vrf.World := cyclic_world (Z.of_N C16.Model.ell25519) ell25519_prime.
-
-Example W25519_ell : Vrf.ell W25519 = Z.of_N C16.Model.ell25519.
-Proof. reflexivity. Qed.
-
-(* headline theorems of C16 at the real order: no primality hypothesis is left *)
-Example C16_complete_at_ell25519 : forall (x t : Z) (m : Vrf.Msg W25519),
-  Vrf.verify W25519 (Vrf.pubkey W25519 x) (Vrf.prove W25519 x t m) m = true.
-Proof. exact (C16.Props.C16_complete W25519). Qed.
-Print Assumptions C16_complete_at_ell25519.
-
-Example C16_output_unique_cofactor_at_ell25519 :
-  forall (x : Z) (m : Vrf.Msg W25519) (p1 p2 : Vrf.proof W25519),
-  Vrf.verify W25519 (Vrf.pubkey W25519 x) p1 m = true ->
-  Vrf.verify W25519 (Vrf.pubkey W25519 x) p2 m = true ->
-  Vrf.output_cof W25519 p1 = Vrf.output_cof W25519 p2 \/
-  Vrf.lucky_hit W25519 x m p1 \/ Vrf.lucky_hit W25519 x m p2.
-Proof. exact (C16.Props.C16_output_unique_cofactor W25519). Qed.
-Print Assumptions C16_output_unique_cofactor_at_ell25519.
-
-(* ========================================================================================== *)
-(* C13 / C15: threshold BLS over the node's BN group order (mathcomp style from here on)       *)
-
-Set Warnings "-notation-overridden,-ambiguous-paths".
-From mathcomp Require Import all_ssreflect all_algebra zify ssrZ.
-Set Warnings "notation-overridden,ambiguous-paths".
-From V.C13 Require Import Model Bridge Props.
-Import GRing.Theory.
-Delimit Scope Z_scope with ZZ.
-Local Open Scope ring_scope.
-
-(* C13.Model.curve_order is the constant of Base/Primes.v (and of bn256/constants.go) *)
-Lemma curve_order_bn256 : curve_order = bn256_order.
-Proof. by []. Qed.
-
-(* the hypothesis of C13_zr_lagrange / C13_zr_dkg, proved *)
-Lemma curve_order_prime : Znumtheory.prime curve_order.
-Proof. exact: bn256_order_prime. Qed.
-Print Assumptions curve_order_prime.
-
-(* any stdlib prime is a mathcomp prime; Z.to_nat is only mentioned, never evaluated *)
-Lemma Zprime_prime_nat (q : Z) : Znumtheory.prime q -> prime (Z.to_nat q).
-Proof.
-move=> q_prime; have q2 := Znumtheory.prime_ge_2 q q_prime.
-apply/primeP; split; first by lia.
-move=> d /dvdnP [c E].
-have dq : (Z.of_nat d | q)%ZZ by exists (Z.of_nat c); lia.
-have := Znumtheory.prime_divisors q q_prime _ dq.
-case=> [|[|[|]]] H; apply/orP; [lia|left|right|lia]; apply/eqP; lia.
-Qed.
-
-Lemma curve_order_prime_nat : prime (Z.to_nat curve_order).
-Proof. exact: Zprime_prime_nat curve_order_prime. Qed.
-Print Assumptions curve_order_prime_nat.
-
+(* the ed25519 order in mathcomp's sense (needs both PrimesUseEd25519 and the bridge) *)
 Lemma ell25519_prime_nat : prime (Z.to_nat (Z.of_N C16.Model.ell25519)).
 Proof. exact: Zprime_prime_nat ell25519_prime. Qed.
-
-(* C15 (and the field-generic theorems of C13) quantify over an arbitrary fieldType F; the field the
-   node computes in is 'F_r, r = curve_order.  It has exactly r elements and characteristic r: *)
-Definition Fr : finFieldType := [finFieldType of 'F_(Z.to_nat curve_order)].
-
-Lemma card_Fr : #|Fr| = Z.to_nat curve_order.
-Proof. exact: card_Fp curve_order_prime_nat. Qed.
-
-Lemma char_Fr : Z.to_nat curve_order \in [char Fr].
-Proof. exact: char_Fp curve_order_prime_nat. Qed.
-
-(* C13_zr_lagrange without the primality hypothesis *)
-Corollary C13_zr_lagrange_unconditional : forall (cs xs : seq Z),
-  uniq (residues curve_order xs) -> (size cs <= size xs)%N ->
-  recover_z curve_order xs (map (share_seckey curve_order cs) xs) = (nth 0 cs 0 mod curve_order)%ZZ.
-Proof. exact: C13_zr_lagrange curve_order_prime. Qed.
-Print Assumptions C13_zr_lagrange_unconditional.
-
-(* C13_zr_dkg without the primality hypothesis *)
-Corollary C13_zr_dkg_unconditional :
-  forall (k : nat) (dealers : seq (seq Z)) (ids : seq Z) (sel : seq nat) (h : Z),
-  all (fun cs => size cs <= k)%N dealers ->
-  uniq (residues curve_order ids) -> uniq sel -> all (fun i => i < size ids)%N sel -> (k <= size sel)%N ->
-  (recover_sel (zq curve_order) sel ids
-     (map (fun z => (member_key (zq curve_order) dealers z * h) mod curve_order)%ZZ ids)
-     mod curve_order)%ZZ
-  = ((group_secret (zq curve_order) dealers * h) mod curve_order)%ZZ.
-Proof. exact: C13_zr_dkg curve_order_prime. Qed.
-Print Assumptions C13_zr_dkg_unconditional.
+Print Assumptions ell25519_prime_nat.
